@@ -23,8 +23,9 @@ Not modelled: template head/middle pieces (`suffix = 2`), tagged templates (copi
 namespace Verif.Model.JsString
 open Verif.JsStrBase
 
-def BSL : Nat := 92
-def BT : Nat := 96
+/-- backslash and backtick (notations: the terms contain the numerals) -/
+local notation "BSL" => (92 : Nat)
+local notation "BT" => (96 : Nat)
 
 /-- Go `utf8.EncodeRune` for a scalar value -/
 def utf8Enc (n : Nat) : List Nat :=
@@ -105,7 +106,10 @@ def octM (q : Nat) (an : Bool) (e : Nat) (r1 : List Nat) : Res :=
 def escM (q : Nat) (an : Bool) (e : Nat) (r1 : List Nat) : Res :=
   if e = q ∨ e = BSL ∨ e = c%'r' ∨ (q ≠ BT ∧ e = c%'n') ∨ (e = c%'0' ∧ ¬ r1.head?.any isOct) then
     ([BSL, e], 1, e = c%'0')
-  else if an ∧ (e = 10 ∨ e = 13 ∨ e = 0xE2) then ([BSL, e], 1, false)
+  else if an ∧ (e = 10 ∨ e = 13 ∨ e = 0xE2) then
+    -- a line continuation after `\0` is kept (a digit may follow); a lone CR is written as LF
+    if e = 13 then (if r1.head? = some 10 then ([BSL, 13, 10], 2, false) else ([BSL, 10], 1, false))
+    else ([BSL, e], 1, false)
   else if 0 < lcLen e r1 then ([], lcLen e r1, false)
   else if e = c%'x' then hexM q an r1
   else if e = c%'u' then uniM q an r1
